@@ -501,6 +501,17 @@ func (c *Cer) RestartNode(n *simnode.Node) bool {
 	return true
 }
 
+// LotteryTextAll is LotteryText over every shard the node's state knows.
+func LotteryTextAll(n *simnode.Node) string {
+	nsh := 1
+	n.Do(func() { nsh = int(n.App.State.ShardsNum()) })
+	var sb strings.Builder
+	for sh := 1; sh <= nsh; sh++ {
+		fmt.Fprintf(&sb, "shard %d: %s", sh, LotteryText(n, common.ShardId(sh)))
+	}
+	return sb.String()
+}
+
 // LotteryText renders a node's lottery view canonically (for cross-replica comparison).
 func LotteryText(n *simnode.Node, shard common.ShardId) string {
 	var sb strings.Builder
